@@ -18,7 +18,7 @@ from ..oracle import astdump
 
 PROBES = [
     'Foo\n===\n\nBar\nbaz\n---\n',      # first: a block quote in a later probe would repair a stuck setext switch
-    '#\n\n# a #\n\n## b\n#\n',
+    '## ##\n\n# #\n\n#\n\n# a #\n\n## b\n#\n\n### ###\n',     # empty headings first: stale class-level heading content shows here
     '```py\nx\n```\n\n```\ny\n```\n\n~~~ info more\nz\n',
     '<pre>\na\n\nb\n</pre>\n\n<div>\nx\n\ny\n\n<!-- c\n\nd -->\n\n<?php\n\n?>\n\n<span>s</span>\n',
     '> a\n> ---\n\nFoo\n===\n\nBar\n---\n\n> b\nc\n',
